@@ -14,6 +14,8 @@ import re
 def _enforce_numbers(self, value):
     if value <= 0:
         raise ValueError(f"The number be greater than 0; {value} given.")
+    if self._problem:
+        self._problem.surfaces.check_number(value)
 
 
 class Surface(Numbered_MCNP_Object):
